@@ -358,7 +358,7 @@ def _eval_measurement(ctx, c, m, with_altitude, lever, has_rates):
     ev.call_function(init, [with_altitude], {}, em)
     selfo = Obj(c)
     selfo.attrs['data'] = Opaque('data')
-    selfo.attrs['R'] = SArray((3, 3), {(i, j): (A.sym('sd2') if i == j else A.const(0))
+    selfo.attrs['R'] = SArray((3, 3), {(i, j): (A.sym('var%d' % i) if i == j else A.const(0))
                                        for i in range(3) for j in range(3)})
     if 'imu_to_antenna_b' in _all_attrs(c):
         selfo.attrs['imu_to_antenna_b'] = (
@@ -622,7 +622,7 @@ def meas_jacobian(ctx):
                 pva = Rec(cols, 'series')
                 selfo = Obj(c)
                 selfo.attrs['data'] = Opaque('data')
-                selfo.attrs['R'] = SArray((3, 3), {(i, j): (A.sym('sd2') if i == j else A.const(0))
+                selfo.attrs['R'] = SArray((3, 3), {(i, j): (A.sym('var%d' % i) if i == j else A.const(0))
                                                    for i in range(3) for j in range(3)})
                 if has_lever:
                     selfo.attrs['imu_to_antenna_b'] = (
@@ -673,3 +673,76 @@ def meas_jacobian(ctx):
                            'with respect to the error state at entries (row, state) %s'
                            % (tag, bad[:6]))
     ctx.floor('H-JACOBIAN', n, 10, 'configurations')
+
+
+def meas_noise(ctx):
+    ctx.rule('MEAS-NOISE', 'the constructor stores R = sd^2 * I_3 for the supplied standard '
+             'deviation; compute_matrices returns the block of R that belongs to the rows of z '
+             '(all three, or north/east without altitude), untouched')
+    repo = ctx.repo
+    n = 0
+    for c, m in _subclasses(ctx):
+        init = c.methods.get('__init__')
+        ctx.need(init is not None, '%s has no constructor' % c.name)
+        ctx.touch(init)
+        ev = SymEval(repo, Alg())
+        A = ev.A
+        sdp = [p_ for p_ in init.params[1:] if p_ == 'sd' or p_.endswith('_sd') or
+               'sd' in p_.split('_')]
+        ctx.need(len(sdp) == 1, '%s.__init__: standard-deviation parameter not identified'
+                 % c.name)
+        args = []
+        for p_ in init.params[1:]:
+            if p_ == sdp[0]:
+                args.append(A.sym('sd'))
+            elif p_ == 'data':
+                args.append(Opaque('data'))
+            else:
+                args.append(None)
+        o = Obj(c)
+
+        class _H:
+            def attr(self, ev_, base, a, node):
+                if isinstance(base, Opaque) and base.tag in ('data', 'data.sel'):
+                    return Opaque('data.sel')
+                return None
+
+            def subscript(self, ev_, base, idx, node, env):
+                if isinstance(base, Opaque) and base.tag in ('data', 'data.sel'):
+                    return Opaque('data.sel')
+                return None
+        ev.hooks = _H()
+        try:
+            ev.call_function(init, args, {}, o)
+        except Unsupported as e:
+            raise AnalysisError('%s.__init__ not analysable: %s' % (c.name, e))
+        R = o.attrs.get('R')
+        sd2 = A.mul(A.sym('sd'), A.sym('sd'))
+        ctx.need(isinstance(R, SArray), '%s.__init__: the value stored in self.R is not modelled'
+                 % c.name)
+        ok = isinstance(R, SArray) and R.shape == (3, 3) and all(
+            A.eq(R.get((i, j)), sd2 if i == j else A.const(0)) for i in range(3)
+            for j in range(3))
+        n += 1
+        ctx.ob('MEAS-NOISE', ok, None, '%s: R = sd^2 * I_3' % c.name, f=init, key='ctor-' + c.name,
+               why='%s stores a noise matrix that is not the variance sd^2 on the diagonal '
+                   '(e.g. the standard deviation itself): the filter weights this sensor wrongly'
+                   % c.name)
+        # returned block
+        for wa in (True, False):
+            try:
+                ev2, ret, em = _eval_measurement(ctx, c, m, wa, False, False)
+            except Unsupported as e:
+                raise AnalysisError('%s.compute_matrices not analysable: %s' % (c.name, e))
+            z, H, Rr = ret
+            k = z.shape[0]
+            A2 = ev2.A
+            ok = isinstance(Rr, SArray) and Rr.shape == (k, k) and all(
+                A2.eq(Rr.get((i, j)), A2.sym('var%d' % i) if i == j else A2.const(0))
+                for i in range(k) for j in range(k))
+            n += 1
+            ctx.ob('MEAS-NOISE', ok, None, '%s (with_altitude=%s): returned R is the leading %dx%d '
+                   'block of self.R' % (c.name, wa, k, k), f=m, key='block-%s-%s' % (c.name, wa),
+                   why='%s (with_altitude=%s): the noise matrix returned with a %d-row residual is '
+                       'not the matching block of the stored one' % (c.name, wa, k))
+    ctx.floor('MEAS-NOISE', n, 6, 'noise-matrix obligations')
